@@ -173,3 +173,95 @@ func vxH_C02_childHandles() {
 	coll.Close()
 	store.Close()
 }
+
+func init() { vxRegister("vxH_C02_childFrozen", vxH_C02_childFrozen) }
+
+// vxH_C02_childFrozen: in-memory collection with a child collection. A
+// first child batch is left in the top section, merged, or merged fully; a
+// snapshot is taken and held; then two more rounds of {child batch (Set or
+// Del), something that builds a new stack: another Snapshot, a
+// Collection.Get, a merger cycle, or nothing}. After every round the held
+// snapshot's child still reads the first batch (Get and iterator), and the
+// parent is still empty.
+func vxH_C02_childFrozen() {
+	ci, err := NewCollection(CollectionOptions{})
+	vxAssert("new-ok", err == nil)
+	c := ci.(*collection)
+	c.Start()
+	var CK vxKey
+	CK.n, CK.b[0] = 1, 'k'
+	var clayers [][]vxEnt
+	child := func(mayDel bool) {
+		b, berr := c.NewBatch(1, 8)
+		vxAssert("newbatch-ok", berr == nil)
+		cb, cerr := b.NewChildCollectionBatch("a", BatchOptions{TotalOps: 1, TotalKeyValBytes: 8})
+		vxAssert("childbatch-ok", cerr == nil)
+		ents := vxFixedSet()
+		if mayDel && vxChoose(2) == 1 {
+			ents[0].op = OperationDel
+			ents[0].v.n = 0
+		}
+		vxFillBatch(cb, ents)
+		vxAssert("executebatch-ok", c.ExecuteBatch(b, WriteOptions{}) == nil)
+		b.Close()
+		clayers = append(clayers, ents)
+	}
+	child(false)
+	switch vxChoose(3) {
+	case 1:
+		c.NotifyMerger("go", true)
+	case 2:
+		c.NotifyMerger("mergeAll", true)
+	}
+	held, serr := c.Snapshot()
+	vxAssert("snapshot-ok", serr == nil)
+	frozen := vxRefGet(CK, clayers[:1]...)
+	check := func(tag string) {
+		pg, perr := held.Get([]byte{'k'}, ReadOptions{})
+		vxAssert(tag+"-parent-get-ok", perr == nil)
+		vxAssert(tag+"-parent-frozen", pg == nil)
+		cs, cerr := held.ChildCollectionSnapshot("a")
+		vxAssert(tag+"-child-snapshot-ok", cerr == nil && cs != nil)
+		if cs == nil {
+			return
+		}
+		got, gerr := cs.Get([]byte{'k'}, ReadOptions{})
+		vxAssert(tag+"-child-get-ok", gerr == nil)
+		vxAssert(tag+"-child-frozen", vxGotIs(got, frozen))
+		it, ierr := cs.StartIterator(nil, nil, IteratorOptions{})
+		vxAssert(tag+"-child-iter-ok", ierr == nil)
+		if it != nil {
+			ik, iv, cuerr := it.Current()
+			vxAssert(tag+"-child-iterator-frozen", cuerr == nil && len(ik) == 1 && ik[0] == 'k' && vxValIs(iv, frozen.v))
+			vxAssert(tag+"-child-iterator-has-one-entry", it.Next() == ErrIteratorDone)
+			it.Close()
+		}
+		cs.Close()
+	}
+	check("held")
+	for r := 0; r < 2; r++ {
+		child(true)
+		switch vxChoose(4) {
+		case 1:
+			if s2, e2 := c.Snapshot(); e2 == nil {
+				s2.Close()
+			}
+		case 2:
+			c.Get([]byte{'k'}, ReadOptions{})
+		case 3:
+			c.NotifyMerger("go", true)
+		}
+		check("later")
+	}
+	// the current state is right as well
+	cur, cerr := c.Snapshot()
+	vxAssert("snapshot-ok", cerr == nil)
+	if cs, _ := cur.ChildCollectionSnapshot("a"); cs != nil {
+		got, _ := cs.Get([]byte{'k'}, ReadOptions{})
+		vxAssert("current-child-content", vxGotIs(got, vxRefGet(CK, clayers...)))
+		cs.Close()
+	}
+	cur.Close()
+	held.Close()
+	c.Close()
+}
